@@ -47,39 +47,45 @@ Proof.
   rewrite (span_float_sentinel r a b E). rewrite valid_number_spec. reflexivity.
 Qed.
 
+Definition clim : option nat := Some c_max_depth.
+
 Theorem compact_rel f :
-  (forall d depth ls, val_rel (2 * length ls + 2) f (pg_value None allnum f d ls) (c_value None false f depth (ls ++ [0]))) /\
-  (forall d depth ls, val_rel (2 * length ls + 3) f (pg_members None allnum f d ls) (c_members None false f depth (ls ++ [0]))) /\
-  (forall d depth ls, val_rel (2 * length ls + 3) f (pg_elements None allnum f d ls) (c_elements None false f depth (ls ++ [0]))).
+  (forall d ls, val_rel (2 * length ls + 2) f (pg_value clim allnum f d ls) (c_value None false f d (ls ++ [0]))) /\
+  (forall d ls, val_rel (2 * length ls + 3) f (pg_members clim allnum f d ls) (c_members None false f d (ls ++ [0]))) /\
+  (forall d ls, val_rel (2 * length ls + 3) f (pg_elements clim allnum f d ls) (c_elements None false f d (ls ++ [0]))).
 Proof.
   induction f as [|f (IHv & IHm & IHe)].
   { split; [|split]; intros; cbn; right; (split; [reflexivity|lia]). }
-  pose proof (spec_shorter None allnum f) as (SHv & SHm & SHe).
+  pose proof (spec_shorter clim allnum f) as (SHv & SHm & SHe).
   split; [|split].
   - (* value *)
-    intros d depth ls. cbn [pg_value c_value]. change (depth_ok None d) with true. cbn [negb]. rewrite c_value_ws_sentinel.
+    intros d ls. cbn [pg_value c_value].
+    assert (Dok : negb (depth_ok clim d) = Nat.ltb c_max_depth (S d)).
+    { unfold depth_ok, clim. destruct (Nat.leb_spec (S d) c_max_depth); destruct (Nat.ltb_spec c_max_depth (S d)); try reflexivity; lia. } rewrite c_value_ws_sentinel.
     pose proof (skip_ws_length ls) as L0.
     destruct (skip_ws ls) as [|c r] eqn:Es.
     { cbn. left. reflexivity. }
     cbn [app]. cbn [length] in L0.
     destruct (N.eqb_spec c 123) as [E|E].
-    { subst c. rewrite c_skip_ws_sentinel. pose proof (skip_ws_length r) as L1.
+    { subst c. rewrite Dok. destruct (Nat.ltb c_max_depth (S d)); [left; reflexivity|].
+      rewrite c_skip_ws_sentinel. pose proof (skip_ws_length r) as L1.
       destruct (skip_ws r) as [|c1 r1] eqn:Er.
       - cbn [app]. destruct f; cbn; [right; split; [reflexivity|lia]|left; reflexivity].
       - cbn [app]. cbn [length] in L1. destruct (c1 =? 125); [reflexivity|].
-        specialize (IHm (S d) (S depth) (c1 :: r1)). cbn [app] in IHm. unfold val_rel in *.
-        destruct (pg_members None allnum f (S d) (c1 :: r1)) as [[ts rest]|].
+        specialize (IHm (S d) (c1 :: r1)). cbn [app] in IHm. unfold val_rel in *.
+        destruct (pg_members clim allnum f (S d) (c1 :: r1)) as [[ts rest]|].
         + rewrite IHm. reflexivity.
         + useIH IHm. }
     destruct (N.eqb_spec c 125) as [E1|E1].
     { subst c. cbn. left. reflexivity. }
     destruct (N.eqb_spec c 91) as [E2|E2].
-    { subst c. rewrite c_skip_ws_sentinel. pose proof (skip_ws_length r) as L1.
+    { subst c. rewrite Dok. destruct (Nat.ltb c_max_depth (S d)); [left; reflexivity|].
+      rewrite c_skip_ws_sentinel. pose proof (skip_ws_length r) as L1.
       destruct (skip_ws r) as [|c1 r1] eqn:Er.
       - cbn [app]. destruct f as [|[|f']]; cbn; [right; split; [reflexivity|lia]|right; split; [reflexivity|lia]|left; reflexivity].
       - cbn [app]. cbn [length] in L1. destruct (c1 =? 93); [reflexivity|].
-        specialize (IHe (S d) (S depth) (c1 :: r1)). cbn [app] in IHe. unfold val_rel in *.
-        destruct (pg_elements None allnum f (S d) (c1 :: r1)) as [[ts rest]|].
+        specialize (IHe (S d) (c1 :: r1)). cbn [app] in IHe. unfold val_rel in *.
+        destruct (pg_elements clim allnum f (S d) (c1 :: r1)) as [[ts rest]|].
         + rewrite IHe. reflexivity.
         + useIH IHe. }
     destruct (N.eqb_spec c 93) as [E3|E3].
@@ -106,7 +112,7 @@ Proof.
       destruct (starts [117; 108; 108] r); [reflexivity|left; reflexivity]. }
     left. reflexivity.
   - (* members *)
-    intros d depth ls. cbn [pg_members c_members]. rewrite c_skip_ws_sentinel.
+    intros d ls. cbn [pg_members c_members]. rewrite c_skip_ws_sentinel.
     pose proof (c_string_rel (skip_ws ls)) as R. pose proof (skip_ws_length ls) as L0.
     destruct (skip_ws ls) as [|q r] eqn:Es.
     { rewrite R. left. reflexivity. }
@@ -119,8 +125,8 @@ Proof.
     destruct (skip_ws r1) as [|c r2] eqn:E1.
     { cbn. left. reflexivity. }
     cbn [app]. cbn [length] in L2. destruct (N.eqb_spec c 58) as [Ec|Ec]; cbn [negb]; [|left; reflexivity].
-    specialize (IHv d depth r2). unfold val_rel in IHv |- *.
-    destruct (pg_value None allnum f d r2) as [[vt r3]|] eqn:Ev.
+    specialize (IHv d r2). unfold val_rel in IHv |- *.
+    destruct (pg_value clim allnum f d r2) as [[vt r3]|] eqn:Ev.
     2:{ useIH IHv. }
     pose proof (SHv _ _ _ _ Ev) as L3.
     rewrite IHv. rewrite c_skip_ws_sentinel. pose proof (skip_ws_length r3) as L4.
@@ -129,14 +135,14 @@ Proof.
     cbn [app]. cbn [length] in L4. destruct (N.eqb_spec c3 125) as [E5|E5].
     { cbn [nl colon app]. unfold render_compact. f_equal. f_equal. cbn [flat_map raw_tok]. rewrite flat_map_app. cbn [flat_map raw_tok app]. rewrite <- ?app_assoc. cbn [app]. rewrite ?app_nil_r. reflexivity. }
     destruct (N.eqb_spec c3 44) as [E6|E6]; [|left; reflexivity].
-    specialize (IHm d depth r4). unfold val_rel in IHm.
-    destruct (pg_members None allnum f d r4) as [[ts rest]|].
+    specialize (IHm d r4). unfold val_rel in IHm.
+    destruct (pg_members clim allnum f d r4) as [[ts rest]|].
     2:{ useIH IHm. }
     rewrite IHm. cbn [nl colon app]. unfold render_compact. f_equal. f_equal. cbn [flat_map raw_tok]. rewrite flat_map_app. cbn [flat_map raw_tok app]. rewrite <- ?app_assoc. cbn [app]. rewrite ?app_nil_r. reflexivity.
   - (* elements *)
-    intros d depth ls. cbn [pg_elements c_elements].
-    specialize (IHv d depth ls). unfold val_rel in IHv |- *.
-    destruct (pg_value None allnum f d ls) as [[vt r1]|] eqn:Ev.
+    intros d ls. cbn [pg_elements c_elements].
+    specialize (IHv d ls). unfold val_rel in IHv |- *.
+    destruct (pg_value clim allnum f d ls) as [[vt r1]|] eqn:Ev.
     2:{ useIH IHv. }
     pose proof (SHv _ _ _ _ Ev) as L3.
     rewrite IHv. rewrite c_skip_ws_sentinel. pose proof (skip_ws_length r1) as L4.
@@ -145,8 +151,8 @@ Proof.
     cbn [app]. cbn [length] in L4. destruct (N.eqb_spec c 93) as [E5|E5].
     { cbn [nl app]. unfold render_compact. f_equal. f_equal. rewrite flat_map_app. cbn [flat_map raw_tok app]. rewrite <- ?app_assoc. cbn [app]. rewrite ?app_nil_r. reflexivity. }
     destruct (N.eqb_spec c 44) as [E6|E6]; [|left; reflexivity].
-    specialize (IHe d depth r2). unfold val_rel in IHe.
-    destruct (pg_elements None allnum f d r2) as [[ts rest]|].
+    specialize (IHe d r2). unfold val_rel in IHe.
+    destruct (pg_elements clim allnum f d r2) as [[ts rest]|].
     2:{ useIH IHe. }
     rewrite IHe. cbn [nl app]. unfold render_compact. f_equal. f_equal. rewrite flat_map_app. cbn [flat_map raw_tok app]. rewrite <- ?app_assoc. cbn [app]. rewrite ?app_nil_r. reflexivity.
 Qed.
@@ -163,18 +169,18 @@ Qed.
    never a read outside the buffer, never out of fuel *)
 Theorem compact_run_spec data :
   compact_run false data =
-  match parse_json data with
+  match parse_g clim allnum data with
   | Some (ts, _) => COk (render_compact ts)
   | None => CErr
   end.
 Proof.
-  unfold compact_run, run_value, parse_json, parse_g, top_fuel.
+  unfold compact_run, run_value, parse_g, top_fuel.
   destruct data as [|d0 dr] eqn:Ed.
   { reflexivity. }
   rewrite <- Ed. assert (Hne : data <> []) by (rewrite Ed; discriminate). clear Ed d0 dr.
   destruct (compact_rel (2 * length data + 4)) as (Hv & _ & _).
-  specialize (Hv 0%nat 0%nat data). unfold val_rel in Hv.
-  destruct (pg_value None allnum (2 * length data + 4) 0 data) as [[ts rest]|].
+  specialize (Hv 0%nat data). unfold val_rel in Hv.
+  destruct (pg_value clim allnum (2 * length data + 4) 0 data) as [[ts rest]|].
   - destruct data as [|d0 dr]; [congruence|]. rewrite Hv. rewrite validate_end_all_ws.
     destruct (all_ws rest); reflexivity.
   - destruct data as [|d0 dr]; [congruence|].
